@@ -15,7 +15,8 @@
 (*   pos  : [Action -> Nat]  its position in the declared order           *)
 (*   ext  : [Action -> SUBSET Action]  what it reads from outside its own  *)
 (*                                     iteration                           *)
-(* The constant ConfigSeq is a sequence of such records; the variable `ci` *)
+(* ConfigSeq (module ConcertinaCfg) is a sequence of such records read    *)
+(* from the input file; the variable `ci`                                  *)
 (* (never changed by a step) selects one, so a single TLC run covers every *)
 (* configuration of a bounded family, and the trace specification          *)
 (* (ConcertinaTrace) walks through configurations loaded from a file.      *)
@@ -40,9 +41,7 @@
 (* table is read by others has to be produced at least once; the property  *)
 (* would contradict itself otherwise).                                     *)
 (***************************************************************************)
-EXTENDS Naturals, Sequences, FiniteSets
-
-CONSTANT ConfigSeq         \* Seq(derived configuration records)
+EXTENDS ConcertinaCfg
 
 VARIABLES ci,               \* index of the configuration (constant along a behaviour)
           runs,             \* [Action -> Nat]  completed runs
@@ -50,55 +49,6 @@ VARIABLES ci,               \* index of the configuration (constant along a beha
           raised            \* SUBSET Iter: iterations whose stop signal is up
 
 vars == <<ci, runs, finished, raised>>
-
-Range(s) == {s[k] : k \in DOMAIN s}
-Max(a, b) == IF a >= b THEN a ELSE b
-
-(***************************************************************************)
-(* Structure of a raw configuration value c, and Derive.                   *)
-(***************************************************************************)
-RIterated(c, a) == \E i \in DOMAIN c.iters : a \in Range(c.iters[i].members)
-RItOf(c, a) == IF RIterated(c, a)
-               THEN CHOOSE i \in DOMAIN c.iters : a \in Range(c.iters[i].members)
-               ELSE 0
-RPos(c, a) == IF RIterated(c, a)
-              THEN LET m == c.iters[RItOf(c, a)].members
-                   IN CHOOSE j \in DOMAIN m : m[j] = a
-              ELSE 0
-(* What `a` reads from outside its own iteration. *)
-RExternal(c, a) == c.req[a] \ (IF RIterated(c, a)
-                               THEN Range(c.iters[RItOf(c, a)].members) ELSE {})
-Derive(c) == [n |-> c.n, req |-> c.req, iters |-> c.iters,
-              itof |-> [a \in 1..c.n |-> RItOf(c, a)],
-              pos  |-> [a \in 1..c.n |-> RPos(c, a)],
-              ext  |-> [a \in 1..c.n |-> RExternal(c, a)]]
-
-(***************************************************************************)
-(* Well-formed configurations: iteration groups are disjoint lists without *)
-(* repetition, and the graph obtained by collapsing every iteration to one *)
-(* node is acyclic (otherwise no schedule satisfying the property exists). *)
-(* Checked once per configuration (ASSUME in the model modules).           *)
-(***************************************************************************)
-WUnit(c, a) == IF c.itof[a] # 0 THEN <<"it", c.itof[a]>> ELSE <<"a", a>>
-WUnitEdge(c, u, v) == u # v /\ \E b \in 1..c.n : WUnit(c, b) = v /\
-                                 \E a \in c.req[b] : WUnit(c, a) = u
-RECURSIVE WPeels(_, _)
-WPeels(c, S) ==
-  IF S = {} THEN TRUE
-  ELSE IF \E v \in S : \A u \in S : ~WUnitEdge(c, u, v)
-       THEN WPeels(c, S \ {CHOOSE v \in S : \A u \in S : ~WUnitEdge(c, u, v)})
-       ELSE FALSE
-WellFormedCfg(c) ==
-  /\ c.n \in Nat
-  /\ DOMAIN c.req = 1..c.n
-  /\ \A a \in 1..c.n : c.req[a] \subseteq 1..c.n
-  /\ \A i \in DOMAIN c.iters :
-        /\ Range(c.iters[i].members) \subseteq 1..c.n
-        /\ Cardinality(Range(c.iters[i].members)) = Len(c.iters[i].members)
-  /\ \A i, k \in DOMAIN c.iters :
-        i # k => Range(c.iters[i].members) \cap Range(c.iters[k].members) = {}
-  /\ c = Derive(c)
-  /\ WPeels(c, {WUnit(c, a) : a \in 1..c.n})
 
 cfg          == ConfigSeq[ci]
 Action       == 1..cfg.n
@@ -150,8 +100,14 @@ RaiseSignal(i) == /\ HasSig(i) /\ i \notin raised
                   /\ raised' = raised \cup {i}
                   /\ UNCHANGED <<ci, runs, finished>>
 
-RunSome == \E a \in Action : Run(a)
-Next == RunSome \/ \E i \in Iter : RaiseSignal(i)
+(* top-level disjuncts are named so that TLC -coverage counts each *)
+DoRunPlain    == \E a \in Action : RunPlain(a)
+DoRunLast     == \E a \in Action : RunLast(a)
+DoRunStopped  == \E a \in Action : RunStopped(a)
+DoRunAgain    == \E a \in Action : RunAgain(a)
+DoRaiseSignal == \E i \in Iter : RaiseSignal(i)
+RunSome == DoRunPlain \/ DoRunLast \/ DoRunStopped \/ DoRunAgain
+Next == DoRunPlain \/ DoRunLast \/ DoRunStopped \/ DoRunAgain \/ DoRaiseSignal
 
 SafeSpec == Init /\ [][Next]_vars
 Spec     == SafeSpec /\ WF_vars(RunSome)
